@@ -8,8 +8,8 @@ use crate::common::error::HqError;
 use crate::rpc_call;
 use crate::transfer::connection::ClientSession;
 use crate::transfer::messages::{
-    FromClientMessage, IdSelector, JobDetailRequest, SingleIdSelector, TaskExplainRequest,
-    TaskIdSelector, TaskSelector, TaskStatusSelector, ToClientMessage,
+    FromClientMessage, IdSelector, JobDetailRequest, MAX_TASKS_NOT_FOUND, SingleIdSelector,
+    TaskExplainRequest, TaskIdSelector, TaskSelector, TaskStatusSelector, ToClientMessage,
 };
 use bstr::BString;
 use tako::{JobId, JobTaskId};
@@ -145,6 +145,9 @@ pub async fn output_job_task_info(
 
             for task_id in &job.tasks_not_found {
                 log::warn!("Task {task_id} not found");
+            }
+            if job.tasks_not_found.len() >= MAX_TASKS_NOT_FOUND {
+                log::warn!("Other tasks that were not found are not listed");
             }
         }
     }
